@@ -22,6 +22,13 @@ impl JoinError {
     pub fn is_panic(&self) -> bool {
         false
     }
+    /// (model tasks never panic: Kani has no unwinding)
+    pub fn into_panic(self) -> Box<dyn std::any::Any + Send + 'static> {
+        Box::new(())
+    }
+    pub fn try_into_panic(self) -> Result<Box<dyn std::any::Any + Send + 'static>, JoinError> {
+        Err(self)
+    }
 }
 impl core::fmt::Display for JoinError {
     fn fmt(&self, f: &mut core::fmt::Formatter<'_>) -> core::fmt::Result {
